@@ -525,6 +525,25 @@ func Check(env *core.Env, rep *core.Report) *core.Result {
 		}
 	}
 
+	// (B3) through the binary: one task used by two stages WITHOUT settings of their own, one after the
+	// other, then read by a dependant: every run's captured output is that run's output (not the
+	// outputs of both runs piled up in one shared buffer)
+	for k := 0; k < 2; k++ {
+		d := env.Sub("c11b3")
+		home := env.Sub("c11home")
+		seen := filepath.Join(d, "seen")
+		y := fmt.Sprintf("tasks:\n  greet:\n    command: [\"echo hello\"]\n  reader:\n    command:\n      - 'printf %%s \"$GREET_OUTPUT\" > %s'\npipelines:\n  p:\n    - name: g1\n      task: greet\n    - name: g2\n      task: greet\n      depends_on: [g1]\n    - task: reader\n      depends_on: [g2]\n", seen)
+		_ = ioutil.WriteFile(filepath.Join(d, "tasks.yaml"), []byte(y), 0o644)
+		args := [][]string{{"--raw", "p"}, {"-o", "prefixed", "p"}}[k]
+		res := core.RunBin(d, core.CleanEnv(home), 30*time.Second, "", env.Taskctl, args...)
+		atomic.AddInt64(&evals, 1)
+		b, _ := ioutil.ReadFile(seen)
+		if res.Exit != 0 || string(b) != "hello\n" {
+			add("capture:reuse:outputs-of-different-runs-mixed", fmt.Sprintf("task greet (echo hello) run by stages g1 and g2 (no settings of their own), then read by a dependant of g2: GREET_OUTPUT = %q (exit %d), expected \"hello\\n\"", string(b), res.Exit), map[string]interface{}{"yaml": y, "stderr": clip(res.Stderr)})
+			break
+		}
+	}
+
 	// (C) every dependency arrangement: every stage exports, every stage checks its ancestors;
 	// producers that run together store their outputs at the same moment
 	reps := 25
